@@ -118,6 +118,10 @@ type vc struct {
 	topFC             *funcContract
 	notes             []string // abstraction notes: havocs, unsupported constructs
 	trusted           map[string]bool
+	curCall           ssa.CallInstruction // the call instruction being modelled (stdlib models that need operand types)
+	pendingBinds      []Val               // captured variables of the closure whose contract is being applied
+	escInfo           *escInfo            // non-escaping allocation sites of the function under verification (localobj.go)
+	hasLocal          bool
 	counters          map[string]int
 	stack             []*ssa.Function
 	globals           map[*ssa.Global]string
@@ -825,8 +829,11 @@ func (x *vc) mergeVals(vs []Val, conds []string, t types.Type, hint string) Val 
 
 // collect heap arrays possibly modified by a set of blocks
 type modSet struct {
-	all    bool
-	arrays map[string][]string // array -> refs ("*" = any)
+	all bool
+	// storeAll: `all` is (also) due to a store of the scanned region itself whose target is not understood
+	// (as opposed to calls, which cannot reach the local objects of the function under verification)
+	storeAll bool
+	arrays   map[string][]string // array -> refs ("*" = any)
 }
 
 func (m *modSet) add(arr, ref string) {
@@ -1049,10 +1056,17 @@ func (x *vc) havoc(st *state, mod *modSet, why string) {
 			ks = append(ks, k)
 		}
 		sort.Strings(ks)
+		old := map[string]string{}
 		for _, k := range ks {
+			if cur, ok := st.heap[k]; ok {
+				old[k] = cur
+			}
 			n := x.freshName(k)
 			x.declare(n, x.heapSorts[k])
 			st.heap[k] = n
+		}
+		if !mod.storeAll {
+			x.preserveLocals(old, st.heap, mod.arrays)
 		}
 		x.note("havoc of the whole heap (%s)", why)
 		x.reassumeTables(st, "")
@@ -1174,7 +1188,11 @@ func (x *vc) modsOfStoreAddr(fr *frame, st *state, addr ssa.Value, li *loopInfo,
 		switch xt := a.X.Type().Underlying().(type) {
 		case *types.Slice:
 			name, _ := x.elemArr(st, xt.Elem())
-			mod.add(name, "*")
+			if rv, ok := x.addrRootOutside(fr, a.X, li); ok && rv.LV == nil && rv.T != "" {
+				mod.add(name, app("sl_arr", rv.T))
+			} else {
+				mod.add(name, "*")
+			}
 		case *types.Pointer: // pointer to array
 			if inner, ok := a.X.(*ssa.FieldAddr); ok {
 				x.modsOfStoreAddr(fr, st, inner, li, mod)
@@ -1191,6 +1209,7 @@ func (x *vc) modsOfStoreAddr(fr *frame, st *state, addr ssa.Value, li *loopInfo,
 		pt, ok := addr.Type().Underlying().(*types.Pointer)
 		if !ok {
 			mod.all = true
+			mod.storeAll = true
 			return
 		}
 		et := pt.Elem()
@@ -1278,6 +1297,7 @@ func (x *vc) modsOfCall(fr *frame, st *state, in ssa.CallInstruction, li *loopIn
 			}
 			if b.Name() == "delete" {
 				mod.all = true
+				mod.storeAll = true
 			}
 			return
 		} else {
